@@ -206,3 +206,17 @@ CHECKS["C13"] = {
         {"pkg": "root", "run": "TestVF_C13_Random", "rapid": {"quick": 150, "thorough": 1500}, "shards": {"quick": 8, "thorough": 16}, "timeout": {"quick": 500, "thorough": 3400}},
     ],
 }
+
+CHECKS["C12"] = {
+    "level": "exploration",
+    "exhaustive_claim": False,
+    "technique": "bounded-exhaustive enumeration of proof descriptors x queried statements x attribute values against arbitrary-precision integer semantics (statement logic), plus property-based testing (rapid) of accepted disclosure proofs under transplant/alteration forgeries of their range proofs; oracle = integer truth of every statement the library reports or implies for the signed value, and placement of range proofs on hidden indices only",
+    "level_text": "Part A enumerates every descriptor (sign, squares, a, k) on an integer box, keeps those true for an attribute value m, and requires every ProvesStatement()==true query (incl. factors near 2^62..2^64 and unsupported signs) and the ProvenStatement() triple to be true for m. Part B proves generated true statements, requires false ones (bound beyond m by one) to be refused, then moves, duplicates, re-attaches and alters the carried range proofs; whenever verification ACCEPTS, every carried range proof must sit on a hidden index of that proof and its reported statement must hold for the signed attribute.",
+    "level_note": "Soundness against provers that know the group order (wrap-around of the sum of squares on undersized toy groups) is outside the holder model and not attempted.",
+    "rule": ("Part A case = (descriptor, attribute value, query) with ProvesStatement true, or (descriptor, attribute) for ProvenStatement; non-trivial = query differs from the descriptor. Part B case = one presented proof; non-trivial = accepted proofs with >= 1 range proof and every forgery; distinct by the tuple / (key, statements, forgery)."),
+    "assumptions": ["math/big integer arithmetic as the reference semantics"],
+    "units": [
+        {"pkg": "rangeproof", "run": "TestVF_C12_StatementLogic", "shards": {"quick": 8, "thorough": 16}, "timeout": {"quick": 500, "thorough": 3400}},
+        {"pkg": "root", "run": "TestVF_C12_Forgeries", "rapid": {"quick": 50, "thorough": 500}, "shards": {"quick": 8, "thorough": 16}, "timeout": {"quick": 500, "thorough": 3400}},
+    ],
+}
